@@ -6,11 +6,11 @@ set -u
 pid="$1"; name="$2"; wt="$3"; shift 3
 d="/verif/seeded/$name"; mkdir -p "$d"
 git -C "$wt" diff -- matid > "$d/patch.diff"
-cp "$wt"/demo_*.py "$d/" 2>/dev/null
+cp "$wt"/demo*.py "$d/" 2>/dev/null
 cd "$wt"
 t=$(PYTHONPATH="$wt" /venv/bin/python -m pytest -q -p no:cacheprovider tests 2>&1 | tail -1)
-PYTHONPATH="$wt" timeout 300 /venv/bin/python demo_*.py >/dev/null 2>&1; with=$?
-git apply -R "$d/patch.diff"; PYTHONPATH="$wt" timeout 300 /venv/bin/python demo_*.py >/dev/null 2>&1; without=$?; git apply "$d/patch.diff"   # (git stash is shared between worktrees: never use it here)
+PYTHONPATH="$wt" timeout 300 /venv/bin/python demo*.py >/dev/null 2>&1; with=$?
+git apply -R "$d/patch.diff"; PYTHONPATH="$wt" timeout 300 /venv/bin/python demo*.py >/dev/null 2>&1; without=$?; git apply "$d/patch.diff"   # (git stash is shared between worktrees: never use it here)
 echo "tests: $t | demo with change: exit $with | without: exit $without"
 res=""
 for p in "$@"; do
